@@ -30,6 +30,8 @@ dce2e <dcudp|dctcp> <wirehex> <unpacked> … q <nq> {…}     a decrypted DNSCry
 fault <dcRecovers> <transport> <wok> <-|rcode:n> <wirehex> <unpacked> … q <nq> {…}    the handler panics (after writing, if rcode:n)
   → <up> <status> <k> {| resp} f<fin>
 life <reboot> <pooled> {s|x|a}      Start / Shutdown / an arrival on one listener → {ok|already|notstarted|hung|served|unanswered|refused}
+clife <waitFirst> {r<id>|d<id>|f<id>|e}   one TCP/DoT connection with real pipelining: frame read (r: will be answered, d: will be dropped),
+      worker of the frame finishes, read loop ends → {w<id>|l<id>|c} | reading=<b> inflight=<n> closes=<n>
 quicread <poolhex|-> {; <datahex|-> <nil|eof|other>}     the results of the successive stream.Read calls
   → none | <payloadhex>                          (readQUICMsg with the real buffer size on that script)
 ```
@@ -285,6 +287,21 @@ def step (s : Unit) : List String → Unit × String
       | .ok => "ok" | .errAlreadyStarted => "already" | .errNotStarted => "notstarted" | .hung => "hung"
       | .served => "served" | .unanswered => "unanswered" | .refused => "refused"
     (s, " ".intercalate (obs.map showO))
+  | "clife" :: wf :: evs =>
+    -- clife <waitFirst> {r<id> | d<id> | f<id> | e}: one TCP/DoT connection under a schedule
+    let parsed : List (Option CEv) := evs.map fun e =>
+      if e == "e" then some .endRead
+      else match e.toList with
+        | 'r' :: ds => some (.recv (nat! (String.ofList ds)) false)
+        | 'd' :: ds => some (.recv (nat! (String.ofList ds)) true)
+        | 'f' :: ds => some (.finish (nat! (String.ofList ds)))
+        | _ => none
+    if parsed.any (·.isNone) then (s, "bad-op") else
+    let st := cRun (bool! wf) cInit (parsed.filterMap id)
+    let showO : CObs → String
+      | .wrote i => s!"w{i}" | .lost i => s!"l{i}" | .closed => "c"
+    (s, (if st.log.isEmpty then "-" else " ".intercalate (st.log.map showO)) ++
+        s!" | reading={showB st.reading} inflight={st.inflight.length + st.dropping.length} closes={st.closes}")
   | _ => (s, "bad-op")
 
 def main : IO Unit := loop step ()
